@@ -1,13 +1,242 @@
 /-
   C19 — CPE names round-trip and compare according to the naming/matching specs.
-  Property theorems only; helper lemmas live in Proofs/Cpe*.lean.
+
+  Property theorems only; helper lemmas live in Proofs/Cpe*.lean.  The model
+  (Model/Cpe.lean) follows toolkit/types/cpe and the CPE condition of
+  rhel/matcher.go; the tables it is stated over (Gen/Cpe.lean) are regenerated
+  from the sources on every run; the reading of the NIST documents the
+  theorems refer to is Model/CpeSpec.lean.  `./check C19` ties the model to the
+  implementation line by line.
 -/
-import ClairModel.Model.Cpe
+import ClairModel.Proofs.Cpe
+import ClairModel.Proofs.CpePattern
+import ClairModel.Proofs.CpeBind
 
 namespace ClairModel.Props.C19
 open ClairModel ClairModel.Cpe ClairModel.CpeTypes
 
-/-- placeholder while the pipeline is brought up -/
-theorem table_zero : Gen.Cpe.zeroRelation = .invalid := by decide
+/-! ## The regenerated tables -/
+
+/-- The switch of `cpe.Compare`, extracted from match.go, is Table 6-2 of the
+    matching specification: for every combination of source kind, "source has
+    an unquoted wildcard", target kind, "target has an unquoted wildcard" the
+    code's outcome is the specification's (a wildcard target is Invalid). -/
+theorem compare_table_is_spec (sk : Kind) (sw : Bool) (tk : Kind) (tw : Bool) :
+    lookupRow sk sw tk tw = some (CpeSpec.attrOut sk sw tk tw) :=
+  lookupRow_eq_spec sk sw tk tw
+
+/-- `Relation`'s zero value, which an attribute keeps when `Compare` assigns
+    nothing, is `Invalid`. -/
+theorem zero_relation_invalid : Gen.Cpe.zeroRelation = .invalid := by decide
+
+/-- Every key of the `valueString` replacer (bind.go) is a backslash and one
+    more byte: the shape `bindVal` models the generic replacer for. -/
+theorem valueString_keys : ∀ p ∈ Gen.Cpe.valueString, p.1.length = 2 ∧ p.1.head? = some 92 := by
+  decide
+
+/-- Every key of the `valueURI` replacer (unbind.go) is one byte, or `%` and
+    two more bytes, no key occurs twice and no one-byte key is `%`: the shape
+    `uriDecode` models the generic replacer for. -/
+theorem valueURI_keys :
+    (∀ p ∈ Gen.Cpe.valueURI, (p.1.length = 1 ∧ p.1 ≠ [37]) ∨ (p.1.length = 3 ∧ p.1.head? = some 37)) ∧
+      (Gen.Cpe.valueURI.map (·.1)).Nodup := by
+  decide
+
+/-- `UnbindFS` looks for the prefix `cpe:2.3:`, `UnbindURI` for `cpe:/`, a name
+    has eleven attributes, the URI components are the first seven attributes
+    and the packed edition holds edition, sw_edition, target_sw, target_hw, other. -/
+theorem unbind_constants :
+    Gen.Cpe.cpe23Prefix = fsHead ++ [58] ∧ Gen.Cpe.cpe22Prefix = [99, 112, 101, 58, 47] ∧
+      Gen.Cpe.numAttr = 11 ∧ Gen.Cpe.uriAttrs = [0, 1, 2, 3, 4, 5, 6] ∧
+      Gen.Cpe.uriPackedAttrs = [5, 7, 8, 9, 10] := by
+  decide
+
+/-! ## Comparison laws (all names, all values) -/
+
+/-- Identical names are equal — for every name whose set values have no
+    unquoted wildcard (the specification leaves a wildcard target undefined;
+    the code answers Invalid for it). -/
+theorem compare_identical_equal (w : WFN) (h : ∀ a ∈ w, ¬ wildSet a) :
+    isEqual (compare w w) = true := by
+  rw [compare_self]
+  simp only [isEqual, List.all_map, List.all_eq_true]
+  intro a ha
+  simp [cmpAttr_eq_spec, specAttr_self a (h a ha)]
+
+/-- A wildcard target is outside the law: `Compare(w, w)` is not equal then. -/
+theorem compare_identical_wildcard_counterexample :
+    isEqual (compare [⟨.set, [102, 111, 42]⟩] [⟨.set, [102, 111, 42]⟩]) = false := by decide
+
+/-- ANY (or an unset attribute) is a superset of every value: it is EQUAL to
+    ANY/unset and SUPERSET of NA and of every set value without wildcard. -/
+theorem any_superset (s t : Value) (hs : s.kind = .any ∨ s.kind = .unset) (ht : ¬ wildSet t) :
+    cmpAttr s t = if t.kind = .any ∨ t.kind = .unset then .equal else .superset := by
+  rw [cmpAttr_eq_spec]; exact specAttr_any s t hs ht
+
+/-- NA is disjoint from every set value (source NA). -/
+theorem na_disjoint_set (s t : Value) (hs : s.kind = .na) (ht : t.kind = .set)
+    (hw : hasWildcard t.v = false) : cmpAttr s t = .disjoint := by
+  rw [cmpAttr_eq_spec]; exact specAttr_na_set s t hs ht hw
+
+/-- NA is disjoint from every set value (target NA), with or without wildcards. -/
+theorem set_disjoint_na (s t : Value) (hs : s.kind = .set) (ht : t.kind = .na) :
+    cmpAttr s t = .disjoint := by
+  rw [cmpAttr_eq_spec]; exact specAttr_set_na s t hs ht
+
+/-- Comparison is case-insensitive in the source: two source values that are
+    equal after ASCII case folding give the same relation against any target. -/
+theorem compare_case_insensitive_source (s s' t : Value) (hk : s.kind = s'.kind)
+    (hv : lower s.v = lower s'.v) : cmpAttr s t = cmpAttr s' t := by
+  rw [cmpAttr_eq_spec, cmpAttr_eq_spec]; exact specAttr_fold_src s s' t hk hv
+
+/-- Comparison is case-insensitive in the target. -/
+theorem compare_case_insensitive_target (s t t' : Value) (hk : t.kind = t'.kind)
+    (hv : lower t.v = lower t'.v) : cmpAttr s t = cmpAttr s t' := by
+  rw [cmpAttr_eq_spec, cmpAttr_eq_spec]; exact specAttr_fold_tgt s t t' hk hv
+
+/-- Folding the case of a value is such a change (so `Compare` may fold first). -/
+theorem compare_lower (s t : Value) :
+    cmpAttr ⟨s.kind, lower s.v⟩ ⟨t.kind, lower t.v⟩ = cmpAttr s t := by
+  rw [compare_case_insensitive_source ⟨s.kind, lower s.v⟩ s _ rfl (lower_idem s.v),
+    compare_case_insensitive_target s ⟨t.kind, lower t.v⟩ t rfl (lower_idem t.v)]
+
+/-- Mirror image, attribute by attribute: swapping source and target of two
+    wildcard-free names turns every SUPERSET into SUBSET and back and leaves
+    EQUAL and DISJOINT alone. -/
+theorem mirror_attributes (a b : WFN) (ha : ∀ x ∈ a, ¬ wildSet x) (hb : ∀ x ∈ b, ¬ wildSet x) :
+    compare b a = (compare a b).map CpeSpec.mirror :=
+  compare_mirror a b ha hb
+
+/-- Mirror image of the verdicts: `Compare(a,b).IsSuperset() = Compare(b,a).IsSubset()`. -/
+theorem mirror (a b : WFN) (ha : ∀ x ∈ a, ¬ wildSet x) (hb : ∀ x ∈ b, ¬ wildSet x) :
+    isSuperset (compare a b) = isSubset (compare b a) :=
+  (isSuperset_mirror a b ha hb).symm
+
+/-- Equal is superset and subset at once; disjoint excludes all three when
+    the names have at least the compared attribute. -/
+theorem equal_iff_superset_and_subset (rs : List Rel) :
+    isEqual rs = (isSuperset rs && isSubset rs) := by
+  induction rs with
+  | nil => rfl
+  | cons r rs ih =>
+    simp only [isEqual, isSuperset, isSubset, List.all_cons] at ih ⊢
+    rw [ih]
+    cases r <;> cases (rs.all fun r => r == Rel.equal || r == Rel.superset) <;>
+      cases (rs.all fun r => r == Rel.equal || r == Rel.subset) <;> rfl
+
+/-! ## Wildcard patterns -/
+
+/-
+  Full statement (false of the unchanged code, see the two counterexamples):
+    ∀ s t, validate s → validate t → hasWildcard t = false →
+      patCompare s t = CpeSpec.globMatches s t
+-/
+
+/-- `patCompare` is the glob semantics of the matching specification (`*` any
+    sequence, `?` one character or none, case-insensitive) for every source and
+    target without quoted characters, provided what remains of the source
+    between its leading and trailing wildcards has no further `*` or `?`
+    (`validate` guarantees that for a value string). -/
+theorem pattern_matches_spec_partial (s t : Str) (hs : 92 ∉ s) (ht : 92 ∉ t) (hc : coreClean s) :
+    patCompare s t = CpeSpec.globMatches s t :=
+  patCompare_eq_spec s t hs ht hc
+
+/-- The hypothesis is satisfiable: `?oo*` against `Foobar`. -/
+example : patCompare [63, 111, 111, 42] [70, 111, 111, 98, 97, 114] = true := by decide
+example : coreClean [63, 111, 111, 42] := by unfold coreClean; decide
+
+/-- A quoted character of the target counts as two for `?`: `1?` does not
+    match `1\.` although `?` stands for the one character `.`. -/
+theorem pattern_quoted_width_counterexample :
+    patCompare [49, 63] [49, 92, 46] = false ∧ CpeSpec.globMatches [49, 63] [49, 92, 46] = true := by
+  decide
+
+/-- A quoted special character at the end of the source is stripped as if it
+    were a wildcard: `*a\*` matches `a\.b`. -/
+theorem pattern_quoted_trailing_counterexample :
+    patCompare [42, 97, 92, 42] [97, 92, 46, 98] = true ∧
+      CpeSpec.globMatches [42, 97, 92, 42] [97, 92, 46, 98] = false := by
+  decide
+
+/-! ## Binding and unbinding -/
+
+/-
+  Full statement (false of the unchanged code, see the two counterexamples):
+    ∀ w, valid w = ok → w.length = 11 → unbindFS (bindFS w) = some (norm w)
+-/
+
+/-- Round trip: a valid name with eleven attributes binds to a formatted string
+    that unbinds to the same name — up to what the string cannot carry (`norm`:
+    unset reads back as ANY) — provided no set value is the empty string and
+    none contains a quoted underscore. -/
+theorem fs_roundtrip_partial (w : WFN) (hv : valid w = .ok) (hl : w.length = 11)
+    (hb : ∀ a ∈ w, bindable a) : unbindFS (bindFS w) = some (norm w) :=
+  unbindFS_bindFS w hv hl hb
+
+/-- The same through `Unbind`, which dispatches on the prefix. -/
+theorem unbind_roundtrip_partial (w : WFN) (hv : valid w = .ok) (hl : w.length = 11)
+    (hb : ∀ a ∈ w, bindable a) : unbind (bindFS w) = some (norm w) := by
+  have h := unbindFS_bindFS w hv hl hb
+  cases w with
+  | nil => simp at hl
+  | cons a w =>
+    have h22 : Gen.Cpe.cpe22Prefix.isPrefixOf (bindFS (a :: w)) = false := by
+      simp [bindFS, fsHead, Gen.Cpe.cpe22Prefix, List.isPrefixOf]
+    have h23 : Gen.Cpe.cpe23Prefix.isPrefixOf (bindFS (a :: w)) = true := by
+      simp [bindFS, fsHead, Gen.Cpe.cpe23Prefix, List.isPrefixOf]
+    simp only [unbind, h22, h23, Bool.false_eq_true, if_false, if_true]
+    exact h
+
+/-- `MarshalText` then `Unbind` (what `UnmarshalText` does for a non-empty
+    text) gives the name back. -/
+theorem marshal_roundtrip_partial (w : WFN) (hv : valid w = .ok) (hl : w.length = 11)
+    (hb : ∀ a ∈ w, bindable a) : (marshalText w).bind unbind = some (norm w) := by
+  simp only [marshalText, hv, Option.bind_some]
+  exact unbind_roundtrip_partial w hv hl hb
+
+/-- What is read back is again valid, and binds to the same string (the bound
+    form is a fixed point). -/
+theorem norm_valid (w : WFN) (hv : valid w = .ok) (hne : w ≠ []) : valid (norm w) = .ok :=
+  valid_norm w hv hne
+
+/-- The hypothesis is satisfiable: `a:foo\.bar:*:-:…`. -/
+example : unbindFS (bindFS [⟨.set, [97]⟩, ⟨.set, [102, 111, 111, 92, 46, 98, 97, 114]⟩, ⟨.any, []⟩, ⟨.na, []⟩,
+    ⟨.unset, []⟩, ⟨.unset, []⟩, ⟨.unset, []⟩, ⟨.unset, []⟩, ⟨.unset, []⟩, ⟨.unset, []⟩, ⟨.unset, []⟩]) =
+    some [⟨.set, [97]⟩, ⟨.set, [102, 111, 111, 92, 46, 98, 97, 114]⟩, ⟨.any, []⟩, ⟨.na, []⟩,
+    ⟨.any, []⟩, ⟨.any, []⟩, ⟨.any, []⟩, ⟨.any, []⟩, ⟨.any, []⟩, ⟨.any, []⟩, ⟨.any, []⟩] := by decide
+
+def nameWithVendor (v : Value) : WFN :=
+  [⟨.set, [97]⟩, v, ⟨.any, []⟩, ⟨.any, []⟩, ⟨.any, []⟩, ⟨.any, []⟩, ⟨.any, []⟩, ⟨.any, []⟩, ⟨.any, []⟩,
+    ⟨.any, []⟩, ⟨.any, []⟩]
+
+/-- A quoted underscore does not survive: vendor `a\_b` is valid, binds to
+    `a_b` and reads back as the vendor `a_b`. -/
+theorem fs_roundtrip_underscore_counterexample :
+    valid (nameWithVendor ⟨.set, [97, 92, 95, 98]⟩) = .ok ∧
+      unbindFS (bindFS (nameWithVendor ⟨.set, [97, 92, 95, 98]⟩)) =
+        some (nameWithVendor ⟨.set, [97, 95, 98]⟩) := by
+  decide
+
+/-- A set value with the empty string is valid, binds to an empty component
+    and reads back as an unset attribute. -/
+theorem fs_roundtrip_empty_counterexample :
+    valid (nameWithVendor ⟨.set, []⟩) = .ok ∧
+      unbindFS (bindFS (nameWithVendor ⟨.set, []⟩)) = some (nameWithVendor ⟨.unset, []⟩) := by
+  decide
+
+/-! ## The CPE condition of rhel's matcher -/
+
+/-- The matcher reports a package when the advisory's CPE is a superset of the
+    repository's CPE. -/
+theorem superset_implies_gate (vuln record : WFN) (h : isSuperset (compare vuln record) = true) :
+    gate vuln record = true := by
+  simp [gate, h]
+
+/-- It reports nothing else than superset or the prefix match on the bound strings. -/
+theorem gate_iff (vuln record : WFN) :
+    gate vuln record = true ↔
+      isSuperset (compare vuln record) = true ∨
+        (trimRightColonStar (wfnString vuln)).isPrefixOf (wfnString record) = true := by
+  simp [gate, substringMatch]
 
 end ClairModel.Props.C19
